@@ -9,16 +9,18 @@ EXTENDS FsWorker, Json, IOUtils
 
 Rec == ndJsonDeserialize(IOEnv.TRACE)
 
-VARIABLES l, oi, errSeen
+VARIABLES l, oi, errSeen,
+          evcap,      \* capacity of the event queue
+          pendOut     \* events the last callback burst must have put in the queue
 
-tvars == <<fvars, l, oi, errSeen>>
+tvars == <<fvars, l, oi, errSeen, evcap, pendOut>>
 
 OutDone == oi = Len(F.out)
 Match(r, x) == r.e = x.e /\ r.a = x.a /\ r.b = x.b /\ r.x = x.x /\ r.n = x.n
 ToSet(s) == {s[i] : i \in DOMAIN s}
 
 TraceInit ==
-    /\ l = 1 /\ oi = 0 /\ errSeen = 0
+    /\ l = 1 /\ oi = 0 /\ errSeen = 0 /\ evcap = 1 /\ pendOut = -1
     /\ cfgPaths = {} /\ cfgKind = "native" /\ ver = 0 /\ failWatch = {} /\ failUnwatch = {}
     /\ F = InitF /\ errs = <<>>
 
@@ -27,7 +29,7 @@ TReset ==
     /\ r.e = "reset"
     /\ cfgPaths' = ToSet(r.kids) /\ cfgKind' = "native" /\ ver' = 0
     /\ failWatch' = ToSet(r.fw) /\ failUnwatch' = ToSet(r.fu)
-    /\ F' = InitF /\ errs' = <<>> /\ oi' = 0 /\ errSeen' = 0
+    /\ F' = InitF /\ errs' = <<>> /\ oi' = 0 /\ errSeen' = 0 /\ evcap' = r.x /\ pendOut' = -1
 
 TCfg ==
     LET r == Rec[l] IN
@@ -35,7 +37,7 @@ TCfg ==
     /\ CASE r.a = "paths" -> SetPaths(ToSet(r.kids))
          [] r.a = "kind"  -> SetKind(r.b)
          [] r.a = "other" -> OtherChange
-    /\ UNCHANGED <<oi, errSeen>>
+    /\ UNCHANGED <<oi, errSeen, evcap, pendOut>>
 
 TStep ==
     LET r == Rec[l] IN
@@ -44,14 +46,14 @@ TStep ==
     /\ Len(F'.out) > 0
     /\ Match(r, F'.out[1])
     /\ oi' = 1
-    /\ UNCHANGED errSeen
+    /\ UNCHANGED <<errSeen, evcap, pendOut>>
 
 TConsume ==
     LET r == Rec[l] IN
     /\ ~OutDone
     /\ Match(r, F.out[oi + 1])
     /\ oi' = oi + 1
-    /\ UNCHANGED <<fvars, errSeen>>
+    /\ UNCHANGED <<fvars, errSeen, evcap, pendOut>>
 
 \* the errors channel delivers, in order, exactly the failures the spec has recorded
 TError ==
@@ -61,13 +63,13 @@ TError ==
     /\ errs[errSeen + 1].op = r.a
     /\ LET p == errs[errSeen + 1].path IN r.b = p \/ r.b \o "!" = p
     /\ errSeen' = errSeen + 1
-    /\ UNCHANGED <<fvars, oi>>
+    /\ UNCHANGED <<fvars, oi, evcap, pendOut>>
 
 \* the driver saw the worker quiet before making its next change
 TIdle ==
     /\ Rec[l].e = "idle"
     /\ OutDone /\ WorkerIdle
-    /\ UNCHANGED <<fvars, oi, errSeen>>
+    /\ UNCHANGED <<fvars, oi, errSeen, evcap, pendOut>>
 
 TEnd ==
     LET r == Rec[l] IN
@@ -78,15 +80,35 @@ TEnd ==
     /\ errSeen = Len(errs)
     /\ r.a = (IF F.watcher.on THEN F.watcher.kind ELSE "none")
     /\ ToSet(r.kids) = F.watcher.reg
-    /\ UNCHANGED <<fvars, oi, errSeen>>
+    /\ pendOut = -1
+    /\ UNCHANGED <<fvars, oi, errSeen, evcap, pendOut>>
+
+\* the watcher's callback fires k events and e errors (only a live watcher has a callback)
+TEmit ==
+    LET r == Rec[l]
+        k == IF F.watcher.on THEN r.x ELSE 0
+        e == IF F.watcher.on THEN r.n ELSE 0
+    IN
+    /\ r.e = "emit" /\ OutDone /\ pendOut = -1
+    /\ CallbackBurst(k, e, evcap)
+    /\ pendOut' = IF k < evcap THEN k ELSE evcap
+    /\ UNCHANGED <<oi, errSeen, evcap>>
+
+\* what reached the event queue: as many events as fit, each of the documented shape
+TEventOut ==
+    LET r == Rec[l] IN
+    /\ r.e = "event_out" /\ pendOut >= 0
+    /\ r.x = pendOut /\ r.a = "ok"
+    /\ pendOut' = -1
+    /\ UNCHANGED <<fvars, oi, errSeen, evcap>>
 
 TraceNext ==
     /\ l <= Len(Rec)
     /\ l' = l + 1
-    /\ (TReset \/ TCfg \/ TStep \/ TConsume \/ TError \/ TIdle \/ TEnd)
+    /\ (TReset \/ TCfg \/ TStep \/ TConsume \/ TError \/ TIdle \/ TEmit \/ TEventOut \/ TEnd)
 
 TraceSpec == TraceInit /\ [][TraceNext]_tvars
-TraceView == <<l, oi, errSeen, cfgPaths, cfgKind, ver, F>>
+TraceView == <<l, oi, errSeen, pendOut, cfgPaths, cfgKind, ver, F>>
 
 TraceAccepted ==
     LET d == TLCGet("stats").diameter IN
